@@ -649,9 +649,9 @@ def refine_droplet(
         vmin = 0.0 if vmin is None else vmin
         vmax = 1.0 if vmax is None else vmax
     if vmin is None:
-        vmin = np.min(data_mask)
+        vmin = float(np.min(data_mask))
     if vmax is None:
-        vmax = np.max(data_mask)
+        vmax = float(np.max(data_mask))
     vrng = vmax - vmin
 
     if adjust_values and (vrng == 0 or data_mask.size == 0):
